@@ -26,3 +26,6 @@ Definition c09_ok (c : copies_case) : bool :=
   let '(g, ws) := c in
   bridges_ok g && bridges_complete g &&
   forallb (fun w1 => forallb (fun w2 => N.eqb w1 w2 || copies_equiv g w1 w2) ws) ws.
+
+(* graphs assembled by the update tool: bridging only *)
+Definition c09_bridges (c : copies_case) : bool := let '(g, _) := c in bridges_ok g && bridges_complete g.
